@@ -49,6 +49,20 @@ func (ex *Exec) concIntrinsic(fn *ssa.Function, args []Value) (Value, bool) {
 			return ex.ts.T, true
 		}
 		return ex.ts.F, true
+	case strings.HasPrefix(name, "sync/atomic.Swap"):
+		ex.syncPoint("atomic.Swap")
+		cur := ex.load(args[0], nil)
+		ex.store(args[0], args[1])
+		return cur, true
+	case strings.HasPrefix(name, "sync/atomic.And"), strings.HasPrefix(name, "sync/atomic.Or"):
+		ex.syncPoint("atomic.AndOr")
+		cur := ex.load(args[0], nil).(*Term)
+		op := OpBAnd
+		if strings.HasPrefix(name, "sync/atomic.Or") {
+			op = OpBOr
+		}
+		ex.store(args[0], ex.ts.Bin(op, cur, args[1].(*Term)))
+		return cur, true
 	case strings.HasPrefix(name, "sync/atomic.Add"):
 		ex.syncPoint("atomic.Add")
 		cur := ex.load(args[0], nil).(*Term)
@@ -117,12 +131,16 @@ func (ex *Exec) concIntrinsic(fn *ssa.Function, args []Value) (Value, bool) {
 		if ex.bounds["SLEEPBLOCKS"] != 0 {
 			// the sleeper stays parked until the harness lets time pass (verifAdvanceTime)
 			at := ex.clock
-			ex.wait(func() bool { return ex.clock > at }, "time.Sleep")
+			wake := ex.deadlineOf(args[0])
+			ex.wait(func() bool { return ex.clock > at || (wake >= 0 && ex.clk().ns >= wake) }, "time.Sleep")
 			return nil, true
 		}
 		if c := ex.clk(); !c.symbolic {
 			if d, ok := args[0].(*Term); ok {
 				c.now = ex.ts.Bin(OpAdd, c.now, d) // sleeping takes time on the frozen clock
+				if d.IsConst() {
+					c.ns += int64(d.val)
+				}
 			}
 		}
 		ex.yield()
